@@ -251,11 +251,22 @@ func (env *SpecEnv) binderSort(tn string) (*Sort, types.Type) {
 	if tn == "byte" {
 		return vc.intSort(8), types.Typ[types.Uint8]
 	}
-	// named type of the current package
+	// named type of the current package, or pkg.Type of an imported package
 	if env.pkg != nil {
 		if o := env.pkg.Scope().Lookup(tn); o != nil {
 			if tnm, ok := o.(*types.TypeName); ok {
 				return vc.sortOf(tnm.Type()), tnm.Type()
+			}
+		}
+		if i := strings.Index(tn, "."); i > 0 {
+			for _, imp := range env.pkg.Imports() {
+				if imp.Name() == tn[:i] {
+					if o := imp.Scope().Lookup(tn[i+1:]); o != nil {
+						if tnm, ok := o.(*types.TypeName); ok {
+							return vc.sortOf(tnm.Type()), tnm.Type()
+						}
+					}
+				}
 			}
 		}
 	}
@@ -1224,6 +1235,37 @@ func (env *SpecEnv) callExpr(e *SExpr) SVal {
 			return SVal{T: vc.decVal(x.T, "val")}
 		}
 		return SVal{T: vc.decVal(x.T, "valid")}
+	case "istype", "unbox":
+		// istype(x, T): the dynamic type of interface value x is T; unbox(x, T): its value (T a struct type
+		// of the package, stored by value in the interface)
+		if len(e.Args) != 2 {
+			env.fail("%s(x, T)", name)
+		}
+		x := env.eval(e.Args[0])
+		tn := e.Args[1].String()
+		ptr := strings.HasPrefix(tn, "*")
+		tn = strings.TrimPrefix(tn, "*")
+		_, gt := env.binderSort(tn)
+		if gt == nil {
+			env.fail("unknown type %s", tn)
+		}
+		var dt types.Type = gt
+		if ptr {
+			dt = types.NewPointer(gt)
+		}
+		if x.T.T == nil || x.T.T.K != SIface {
+			env.fail("%s needs an interface value", name)
+		}
+		if name == "istype" {
+			return SVal{T: tEq(mk("(ityp "+x.T.S+")", sortInt), mk(fmt.Sprint(vc.typeID(dt)), sortInt))}
+		}
+		if ptr {
+			return vc.svalOfLoaded(mk("(iref "+x.T.S+")", sortRef), dt)
+		}
+		comp := vc.boxComp(dt)
+		t := tSelect(vc.heapGet(env.st.heap, comp), mk("(iref "+x.T.S+")", sortRef))
+		t.T = vc.sortOf(dt)
+		return vc.svalOfLoaded(t, dt)
 	case "ghost":
 		if len(e.Args) != 1 || e.Args[0].Op != "id" {
 			env.fail("ghost(NAME)")
